@@ -276,7 +276,7 @@ cls(TwoQueueEviction, fields={"_kin_ratio": Real, "_a1in": OLIST, "_a1out": OLIS
     inv=[("a1in-am-disjoint", lambda o: disjoint(odom(o._a1in), odom(o._am))),
          ("a1in-a1out-disjoint", lambda o: disjoint(odom(o._a1in), odom(o._a1out))),
          ("am-a1out-disjoint", lambda o: disjoint(odom(o._am), odom(o._a1out))),
-         ("ghost-list-bounded", lambda o: (o._a1out_max >= 0) & (slen(o._a1out) <= o._a1out_max))])
+         ("ghost-list-bounded", lambda o: (o._a1out_max >= 1) & (slen(o._a1out) <= o._a1out_max))])
 policy_set_clauses(TwoQueueEviction, lambda o: s_or(odom(o._a1in), odom(o._am)), insert_needs_untracked=True,
     insert=[("remembered-key-goes-to-main-queue", lambda s: ite_b(
         has_o(s.old(s.self)._a1out, s.key), has_o(s.self._am, s.key), has_o(s.self._a1in, s.key)))],
